@@ -62,10 +62,30 @@ def feature_cfgs(seed, tier):
     return out
 
 
+def derived_name_cfgs():
+    """configurations the validator may well reject; whatever it accepts has to compile"""
+    out = []
+    # method names are built by concatenation (Must + G, G + InContext): pairs of getters whose derived names meet, getters that meet the
+    # container's own helpers; every ACCEPTED one of them has to compile
+    for g1, g2, mg in [("ang", "Mustang", True), ("ard", "Mustard", True), ("x", "Mustx", True), ("x", "xInContext", False), ("a", "MustaInContext", True), ("getDB", "MustgetDB", True),
+                       ("Get", "GetInContext", False), ("q", "Mustq", None), ("InContext", "MustInContext", True), ("must", "Mustmust", True), ("A", "MustA", True), ("GetX", "GetXInContext", False)]:
+        for dmg in (None, True):
+            a = {"value": "Value", "getter": g1, "type": "T"}
+            if mg is not None:
+                a["must_getter"] = mg
+            cfg = {"services": {"a": a, "b": {"value": "Value", "getter": g2, "type": "*T"}}}
+            if dmg:
+                cfg["meta"] = {"default_must_getter": True}
+            out.append(cfg)
+    for g in ["Must", "Mus", "M", "InContext", "MustInContext", "_getEnv", "_", "_x", "c", "rootGontainer", "NewGontainer", "Gontainer", "init", "main", "Container", "Root", "Get", "String", "Error"]:
+        out.append({"services": {"a": {"value": "Value", "getter": g, "must_getter": True}}})
+    return out
+
+
 def run(tier, seed, replay):
     out, tooldir, env = common.setup("C01", tier, seed)
     common.proof_part(out, env, "C01", ties=["Tie/EnvTie.v"])
-    cfgs = [("feature", c, 1) for c in feature_cfgs(seed, tier)]
+    cfgs = [("feature", c, 1) for c in feature_cfgs(seed, tier)] + [("derived-names", c, 1) for c in derived_name_cfgs()]
     # user-chosen identifiers equal to identifiers the generated file declares itself (special function names, locals of the constructor)
     for what, c in [("container_constructor=init", {"meta": {"container_constructor": "init"}, "services": {"s": {"value": "Value"}}}),
                     ("container_constructor=main", {"meta": {"container_constructor": "main"}, "services": {"s": {"value": "Value"}}}),
